@@ -40,7 +40,7 @@ ASSUMPTIONS = [
     'body is then is the framework\'s / server\'s business)',
 ]
 SHARDS = {'quick': 4, 'thorough': 16}
-TIMEOUT = {'quick': 600, 'thorough': 3000}
+TIMEOUT = {'quick': 900, 'thorough': 3600}
 ANCHORS = [
     ('pjrpc/server/integration/aiohttp.py', 'Application._rpc_handle'),
     ('pjrpc/server/integration/flask.py', 'JsonRPC._rpc_handle'),
